@@ -6,12 +6,33 @@ from props import _objgen as G
 from props._gitobj import GitRepo
 
 ID = "C02"
-THEOREMS = []
+THEOREMS = ["C02_ident_dec_enc", "C02_commit_dec_enc", "C02_commit_enc_dec_bytes", "C02_commit_reencode_refuted",
+            "C02_fields_match_git_refuted"]
 MODEL_FILES = ["ObjLines.v", "Ident.v", "Commit.v", "Tag.v"]
-MODELLED = "wip"
-TRUSTED = []
-ASSUMPTIONS = []
-RULE = "wip"
+MODELLED = ("plumbing/object/commit_scanner.go: the whole stateFn decoder (scanTree, scanParents, scanAuthor, scanCommitter, scanHeaders, "
+            "scanPgpCont/scanPgp256Cont/continuationCont, scanExtraCont, finaliseExtra, scanMessage, push-back, sawEncoding, splitHeader, "
+            "parseObjectIDHex); commit.go: parseExtraHeader, ExtraHeader.Format, isStandardHeader, Commit.encode (Model/Commit.v); "
+            "tag_scanner.go (all states), tag.go: Tag.Decode tail split, Tag.encode, isZeroSignature; signature.go: typeForSignature, "
+            "parseSignedBytes, countSignatureBlocks (Model/Tag.v); object.go: Signature.Decode, decodeTimeAndTimeZone, Signature.Encode, "
+            "encodeTimeAndTimeZone incl. strconv.ParseInt(10,64) and time.Format(\"-0700\") of a fixed zone (Model/Ident.v). "
+            "Input of the decoders is bufio ReadBytes('\\n') line splitting (Model/ObjLines.split_lines). "
+            "S: Spec/GitFields.v = git 2.39 parse_commit_buffer, pretty.c parse_commit_header/split_ident_line/show_ident_date, "
+            "find_commit_header, parse_tag_buffer, ref-filter find_wholine/copy_name/copy_email/grab_date/find_subpos. "
+            "Not modelled (exercised only): MemoryObject / bufio / sync pools, time.Time beyond (Unix seconds, zone minutes), "
+            "the Hash field, I/O errors")
+TRUSTED = [
+    "C-impl: Commit.Decode/Encode, Tag.Decode/Encode, Signature.Decode through harness/cmd/c02 vs Model/Commit, Model/Tag, Model/Ident on every case",
+    "C-git: Spec/GitFields (S) vs `git log -1 --no-walk --date=raw --format=%T %P %an %ae %ad %cn %ce %cd %e %B` and "
+    "`git for-each-ref --format=%(object) %(type) %(tag) %(taggername) %(taggeremail) %(taggerdate:raw) %(contents)` of git 2.39.5 "
+    "on the same stored objects (objects git refuses included)",
+    "the known-finding classes are decided by the boolean clauses of Spec/ObjWf (evaluated by Coq) and by whether the pristine model re-encodes the object exactly",
+]
+ASSUMPTIONS = ["git's fields are what `git log --format` (commits) and `git for-each-ref --format` (tags) print; where git is not "
+               "self-consistent (several author/committer lines: pretty.c reports the last, find_commit_header the first) no comparison is made",
+               "objects with NUL bytes, and commits that carry both an encoding header and non-ASCII text (git re-encodes them for display), "
+               "are compared with the model only, not with git"]
+RULE = ("case = stored commit/tag bytes from buckets {canonical, sigs, permuted, dups, oddident, oddhdr, eofhdr, trunc, junk}, or an "
+        "in-memory struct {well-formed, odd}, or an identity line; non-trivial = every case (each has a header block); distinct by content")
 
 GIT_TAG_TYPES = ("commit", "tree", "blob", "tag")      # go-git's ParseObjectType also takes ofs-delta / ref-delta
 IMPORTS = ("From GoGit Require Import Model.ObjLines Model.Ident Model.Commit Model.Tag "
